@@ -64,6 +64,7 @@ func main() {
 	trace := flag.Bool("trace", false, "trace instructions")
 	concrete := flag.String("concrete", "", "JSON list of assignments: run each concretely in the engine and report outs/fails")
 	asMain := flag.Bool("as-main", false, "the harness package is 'package main': overlay its files into the repository root")
+	inPkg := flag.String("in-pkg", "", "overlay the harness files into this package directory of the repository (in-package harness)")
 	pkgOverlay := flag.String("pkg-overlay", "", "extra overlays: comma-separated repoRelPath=absFile")
 	flag.Parse()
 
@@ -97,6 +98,9 @@ func main() {
 	}
 	patterns := []string{"./zzverif/" + *pkg}
 	if *asMain {
+		*inPkg = "."
+	}
+	if *inPkg != "" {
 		ents, err := os.ReadDir(filepath.Join(*hdir, *pkg))
 		if err != nil {
 			fail(err)
@@ -110,9 +114,9 @@ func main() {
 			if err != nil {
 				fail(err)
 			}
-			overlay[filepath.Join(*repo, "zz_"+*pkg+"_"+n)] = b
+			overlay[filepath.Join(*repo, *inPkg, "zz_"+*pkg+"_"+n)] = b
 		}
-		patterns = []string{"."}
+		patterns = []string{"./" + *inPkg}
 	} else if err := addDir(*pkg); err != nil {
 		fail(err)
 	}
@@ -142,8 +146,10 @@ func main() {
 	res.BuildS = P.BuildTime.Seconds()
 
 	pkgPath := "github.com/attestantio/dirk/zzverif/" + *pkg
-	if *asMain {
+	if *inPkg == "." {
 		pkgPath = "github.com/attestantio/dirk"
+	} else if *inPkg != "" {
+		pkgPath = "github.com/attestantio/dirk/" + *inPkg
 	}
 	var names []string
 	if *funcs != "" {
